@@ -54,15 +54,20 @@ Definition nonvacuous_check : bool :=
 Lemma nonvacuous_ok : nonvacuous_check = true.
 Proof. vm_compute. reflexivity. Qed.
 
-(* F1: SetHead onto a block whose state is gone rewinds the head block below the head
-   header; importing a competitor on that head block then leaves canonical entries
-   above the new head that are not its ancestors, and a tx resolves to one of them *)
+(* F1 (repaired by /repo 337872da5f, transcribed in whb_clear): SetHead onto a block whose
+   state is gone rewinds the head block below the head header; importing a COMPETITOR on
+   that head block used to leave canonical entries above the new head that were not its
+   descendants (canon 2 = Some 2 under head 5).  With the repair the same history ends
+   with nothing above the head. *)
 Definition stale_ops : list op := [OInsert [1;2;3;4]; ORestart; OSetHead 2; OInsert [5]].
-Lemma stale_witness :
+Lemma stale_repaired :
   let st := wrun stale_ops in
-  hd_header st = 5 /\ hd_block st = 5 /\ num_of WT 5 = 1 /\ canon st 1 = Some 5 /\
-  canon st 2 = Some 2 /\ anc WT 2 1 = Some 1 /\ resolve_tx WT st 7 = Some (2, 2).
+  hd_header st = 5 /\ hd_block st = 5 /\ canon st 1 = Some 5 /\ canon st 2 = None /\ canon st 3 = None.
 Proof. vm_compute. repeat split; reflexivity. Qed.
+
+(* what is still reachable: re-importing the SAME chain on the rewound head block pulls the
+   head header down and leaves the old entries above it; they are descendants of the head *)
+Definition linked_ops : list op := [OInsert [1;2;3;4]; ORestart; OSetHead 2; OInsert [1]].
 
 (* F2: SetCanonical of a block that is already canonical (an ancestor of the head)
    emits that block's logs a second time, with no removal in between *)
@@ -86,9 +91,9 @@ Proof. split; [vm_compute; reflexivity|]. eexists. eexists. split; [vm_compute; 
 Lemma no_entry_above_head_refuted :
   exists (T : tree) (fuel : nat) (ops : list op), wf_tree T /\
     let st := run T fuel genesis_db ops in
-    hd_header st = 5 /\ hd_block st = 5 /\ num_of T 5 = 1 /\ canon st 1 = Some 5 /\
+    hd_header st = 1 /\ hd_block st = 1 /\ num_of T 1 = 1 /\ canon st 1 = Some 1 /\
     canon st 2 = Some 2 /\ anc T 2 1 = Some 1 /\ resolve_tx T st 7 = Some (2, 2).
-Proof. exists WT, wfuel, stale_ops. split; [exact WT_wf|]. vm_compute. repeat split; reflexivity. Qed.
+Proof. exists WT, wfuel, linked_ops. split; [exact WT_wf|]. vm_compute. repeat split; reflexivity. Qed.
 
 Lemma set_canonical_reemits_logs_refuted :
   exists (T : tree) fuel st, canon st 2 = Some 2 /\
